@@ -64,6 +64,19 @@ func targets() []*tgt {
 			ocb: func() interface{} { return func(t *CT, a int) int { return (*ph)(t, a) | marker } },
 			ph:  ph, phAddr: vmon.FuncCodePtr(*ph), recvIsParam: true})
 	}
+	// unexported methods reached through ExportStruct("*CT").Method(name)
+	ems := []func(*CT, int) int{(*CT).um3, (*CT).um4}
+	phes := []*func(*CT, int) int{&phu3, &phu4}
+	for k := range ems {
+		m, ph, k := ems[k], phes[k], k
+		ts = append(ts, &tgt{name: fmt.Sprintf("ExportStruct(*CT).um%d", k+3), entry: vmon.FuncCodePtr(m), call: func(a int) int { return m(&CT{v: 9}, a) }, orig: func(a int) int { return 9 + a*(k+8) + 300 + k + 3 },
+			handle: func(b *mocker.Builder) mocker.ExportedMocker {
+				return b.ExportStruct("*CT").Method(fmt.Sprintf("um%d", k+3)).As(func(t *CT, a int) int { return 0 })
+			},
+			cb:  func(v int) interface{} { return func(t *CT, a int) int { return v } },
+			ocb: func() interface{} { return func(t *CT, a int) int { return (*ph)(t, a) | marker } },
+			ph:  ph, phAddr: vmon.FuncCodePtr(*ph), recvIsParam: true})
+	}
 	ts = append(ts, &tgt{name: "CLoop", entry: vmon.FuncCodePtr(CLoop), call: CLoop, orig: func(n int) int {
 		for n > 0 {
 			n -= 3
@@ -418,8 +431,12 @@ func (w *world) apply(o op) {
 			b.Reset()
 			for ti := range w.ts {
 				w.release(o.b, ti)
-				delete(w.kept, [2]int{o.b, ti})
-				delete(w.sess, [2]int{o.b, ti})
+				// a "session" goes on after the builder's Reset: the user still holds the mocker object and applies
+				// through it again (table-driven tests do); other objects are looked up afresh
+				if !w.sess[[2]int{o.b, ti}] {
+					delete(w.kept, [2]int{o.b, ti})
+					delete(w.sess, [2]int{o.b, ti})
+				}
 				delete(w.poisoned, [2]int{o.b, ti})
 			}
 		}
